@@ -1,6 +1,7 @@
 (* C10 -- bindings are immutable and lexically scoped (stated on the definitional semantics;
    C01's compile-correctness theorems carry them over to the compiled form). *)
 From Ucg Require Import sem.Sem sem.Scope_Lemmas.
+From Ucg Require bind.Bind bind.Bind_Lemmas bind.Bind_Mutants.
 
 Section C10.
   Variable fo : float_ops.
@@ -48,3 +49,72 @@ Theorem documented_reserved_words_rejected :
                               "select"; "func"; "module"; "env"; "map"; "filter"; "reduce"; "NULL"; "out";
                               "constraint"; "convert"; "TRACE"]%string) = true.
 Proof. vm_compute. reflexivity. Qed.
+
+(* ---- the statement layer of the compiled form: every statement form that binds a name (let, let with a constraint, the
+   constraint statement), run through the opcode sequences that translate/t_stmt.py reads off translate_stmt
+   (gen/StmtOps.v) and the Bind / BindOver strictness read off vm.rs.  Sub-expressions, the constraint verdict, the empty
+   constraint value and the converters are arbitrary (universally quantified). ---- *)
+Module Stmt.
+  Import bind.Bind bind.Bind_Lemmas bind.Bind_Mutants.
+  Section S.
+    Variable fo : float_ops.
+    Variable sub_expression : Type.
+    Variable eval_code : symtab fo -> sub_expression -> outcome (wval fo).
+    Variable conforms : wval fo -> wval fo -> bool.
+    Variable k_empty : wval fo.
+    Variable out_ok : bytes -> wval fo -> bool.
+    Notation exec_stmt := (exec_stmt fo sub_expression eval_code conforms k_empty out_ok).
+    Notation exec_prog := (exec_prog fo sub_expression eval_code conforms k_empty out_ok).
+
+    Theorem statement_keeps_bindings : forall (s : bstmt sub_expression) (st st' : bstate fo),
+        exec_stmt s st = VOk st' ->
+        forall x v, sym_get x (bsyms st) = Some v -> sym_get x (bsyms st') = Some v.
+    Proof. exact (stmt_keeps_bindings fo sub_expression eval_code conforms k_empty out_ok). Qed.
+
+    Theorem statement_binds_only_its_name : forall (s : bstmt sub_expression) (st st' : bstate fo),
+        exec_stmt s st = VOk st' ->
+        forall y, stmt_name s <> Some y -> sym_get y (bsyms st') = sym_get y (bsyms st).
+    Proof. exact (stmt_binds_only_its_name fo sub_expression eval_code conforms k_empty out_ok). Qed.
+
+    Theorem rebinding_is_error_in_every_form : forall (st : bstate fo) x v0,
+        sym_get x (bsyms st) = Some v0 ->
+        (forall e st', exec_stmt (BLet x e) st <> VOk st') /\
+        (forall e c st', exec_stmt (BLetC x e c) st <> VOk st') /\
+        (forall c st', exec_stmt (BConstraint x c) st <> VOk st').
+    Proof. exact (rebind_is_error_every_form fo sub_expression eval_code conforms k_empty out_ok). Qed.
+
+    Theorem reserved_word_is_error_in_every_form : forall (st : bstate fo) x,
+        vm_is_reserved x = true ->
+        (forall e st', exec_stmt (BLet x e) st <> VOk st') /\
+        (forall e c st', exec_stmt (BLetC x e c) st <> VOk st') /\
+        (forall c st', exec_stmt (BConstraint x c) st <> VOk st').
+    Proof. exact (reserved_is_error_every_form fo sub_expression eval_code conforms k_empty out_ok). Qed.
+
+    (* no program with two binding statements of one name, of any two forms at any two places, runs *)
+    Theorem program_with_two_bindings_of_a_name_fails : forall p1 (s1 : bstmt sub_expression) p2 s2 p3 x (st : bstate fo),
+        stmt_name s1 = Some x -> stmt_name s2 = Some x ->
+        forall st', exec_prog (p1 ++ s1 :: p2 ++ s2 :: p3) st <> VOk st'.
+    Proof. exact (prog_rebind_is_error fo sub_expression eval_code conforms k_empty out_ok). Qed.
+
+    Theorem program_prefix_stable : forall (p1 p2 : list (bstmt sub_expression)) (st st2 : bstate fo),
+        exec_prog (p1 ++ p2) st = VOk st2 ->
+        exists st1, exec_prog p1 st = VOk st1 /\ exec_prog p2 st1 = VOk st2 /\
+                    forall x v, sym_get x (bsyms st1) = Some v -> sym_get x (bsyms st2) = Some v.
+    Proof. exact (prog_prefix_stable fo sub_expression eval_code conforms k_empty out_ok). Qed.
+
+    (* the constraint statement: the value is computed with the name pre-bound to the empty constraint (recursive
+       constraints); afterwards the name holds the value and nothing else changed *)
+    Theorem constraint_statement_result : forall x (c : sub_expression) (st st' : bstate fo),
+        exec_stmt (BConstraint x c) st = VOk st' ->
+        vm_is_reserved x = false /\ sym_get x (bsyms st) = None /\
+        exists v, eval_code (sym_add x k_empty (bsyms st)) c = VOk v /\
+                  st' = {| bstk := bstk st; bsyms := sym_add x v (bsyms st); bout := bout st |} /\
+                  sym_get x (bsyms st') = Some v /\
+                  (forall y, y <> x -> sym_get y (bsyms st') = sym_get y (bsyms st)).
+    Proof. exact (constraint_stmt_result fo sub_expression eval_code conforms k_empty out_ok). Qed.
+
+    Theorem statement_leaves_stack_balanced : forall (s : bstmt sub_expression) (st st' : bstate fo),
+        exec_stmt s st = VOk st' -> bstk st' = bstk st.
+    Proof. exact (stack_balanced fo sub_expression eval_code conforms k_empty out_ok). Qed.
+  End S.
+End Stmt.
